@@ -5,4 +5,7 @@ From RV Require Import Api.
 Extraction "model.ml"
   api_components api_push api_render api_parent api_file_name api_extension api_path_eqb
   api_path_starts_with api_is_absolute api_clean api_go_clean api_clean_spec api_normal_form_b
-  api_relative api_relative_spec api_relative_check.
+  api_relative api_relative_spec api_relative_check
+  api_base api_first api_dir api_ext api_trim_prefix api_trim_suffix api_trim_ext api_name api_has
+  api_has_prefix api_has_suffix api_mash api_trim_first api_trim_last api_concat api_parse_paths
+  api_is_empty api_trim_protocol api_kf_ext_class.
